@@ -58,9 +58,11 @@ def _pull(inp, r):
         return ("time-error", None)
     except FinamNoDataError:
         return ("no-data", None)
+    except (OSError, ValueError) as e:  # e.g. a spill file that is gone
+        return ("error:" + type(e).__name__, None)
 
 
-def h_events(ctx):
+def h_events(ctx, _holder=None):
     """Symbolic event sequence (publish | pull by consumer j) against the real Output and an
     unlimited-history twin wired identically."""
     spec, L = ctx.params["consumers"], ctx.params["events"]
@@ -69,6 +71,14 @@ def h_events(ctx):
     info = lambda: fm.Info(time=t0, grid=fm.NoGrid(), units="m")  # noqa: E731
     real = Output(name="out", info=info())
     twin = KeepAllOutput(name="out", info=info())
+    spill = ctx.params.get("spill")
+    tmpdir = None
+    if spill:
+        import tempfile
+        tmpdir = tempfile.mkdtemp(prefix="vf_c09_")
+        if _holder is not None:
+            _holder.append(tmpdir)
+        real.memory_limit, real.memory_location = 0, tmpdir  # every retained publication lives in a file
     ends_r = _wire(real, spec)
     ends_t = _wire(twin, spec)
     n = len(spec)
@@ -80,8 +90,12 @@ def h_events(ctx):
         if ev == 0:
             t = t0 if not pubs else pubs[-1] + ctx.td(f"g{i}", lo_us=1)
             v = float(len(pubs))
-            real.push_data(np.array(v), t)
-            twin.push_data(np.array(v), t)
+            if spill == "masked":
+                real.push_data(np.ma.masked_array(np.array(v), mask=False), t)
+                twin.push_data(np.ma.masked_array(np.array(v), mask=False), t)
+            else:
+                real.push_data(np.array(v), t)
+                twin.push_data(np.array(v), t)
             pubs.append(t)
             # push-based adapters pulled at the publication time
             for j, k in enumerate(spec):
@@ -116,6 +130,16 @@ def h_events(ctx):
             ctx.cover("all-pulled")
             ctx.check(len(real.data) <= 1 + newer, "history-longer-than-needed",
                       {"sig": "grow", "retained": len(real.data), "newer": newer})
+
+
+def h_events_spill(ctx):
+    import shutil
+    holder = []
+    try:
+        h_events(ctx, holder)
+    finally:
+        for d in holder:  # only the directory this very execution created
+            shutil.rmtree(d, ignore_errors=True)
 
 
 def h_inductive(ctx):
@@ -260,6 +284,12 @@ def families(tier):
                 bounds=f"consumers {spec}; every event sequence of length {L} (first event is a publication); "
                        f"gaps >= 1 us, request times arbitrary but non-decreasing per consumer",
                 must_cover=["pull:ok", "pull:time-error", "all-pulled"]))
+    for kind in ("plain", "masked"):
+        fams.append(dict(
+            name=f"events_spilled:{kind}", ref="vf.props.c09:h_events_spill",
+            params={"consumers": ["direct", "direct"], "events": 5 if q else 6, "spill": kind},
+            bounds=f"two direct consumers, event sequences of length {5 if q else 6}, memory limit 0 ({kind} payloads): every "
+                   f"retained publication is a spill file", must_cover=["pull:ok", "all-pulled"], workers=4))
     for n in ((1, 2) if q else (1, 2, 3, 4)):
         fams.append(dict(
             name=f"inductive:{n}_consumers", ref="vf.props.c09:h_inductive",
